@@ -8,7 +8,10 @@ pub mod c03;
 pub mod c05;
 pub mod c06;
 pub mod c07;
+pub mod c08;
+pub mod c09;
 pub mod c11;
+pub mod c39;
 pub mod c12;
 pub mod c13;
 pub mod c14;
@@ -30,6 +33,8 @@ pub fn all() -> Vec<CheckDef> {
         CheckDef { id: "C05", shards: one, run: c05::run_c05, replay: Some(c05::replay_c05) },
         CheckDef { id: "C06", shards: one, run: c06::run, replay: Some(c06::replay) },
         CheckDef { id: "C07", shards: one, run: c07::run, replay: Some(c07::replay) },
+        CheckDef { id: "C08", shards: one, run: c08::run, replay: Some(c08::replay) },
+        CheckDef { id: "C09", shards: one, run: c09::run, replay: Some(c09::replay) },
         CheckDef { id: "C11", shards: one, run: c11::run, replay: Some(c11::replay) },
         CheckDef { id: "C12", shards: one, run: c12::run, replay: Some(c12::replay) },
         CheckDef { id: "C13", shards: one, run: c13::run, replay: Some(c13::replay) },
@@ -39,6 +44,7 @@ pub fn all() -> Vec<CheckDef> {
         CheckDef { id: "C21", shards: one, run: c21::run, replay: Some(c21::replay) },
         CheckDef { id: "C22", shards: one, run: c22::run, replay: Some(c22::replay) },
         CheckDef { id: "C26", shards: one, run: c26::run, replay: Some(c26::replay) },
+        CheckDef { id: "C39", shards: one, run: c39::run, replay: Some(c39::replay) },
         CheckDef { id: "C28", shards: one, run: c28::run, replay: Some(c28::replay) },
     ]
 }
